@@ -101,8 +101,7 @@ class TokenParser:
 
     @property
     def is_at_eol(self) -> bool:
-        remaining_part_of_current_line = self.token_stream.remaining_part_of_current_line
-        return not remaining_part_of_current_line or remaining_part_of_current_line.isspace()
+        return self.token_stream.remaining_part_of_current_line_is_empty
 
     @property
     def has_current_line(self) -> bool:
@@ -150,7 +149,7 @@ class TokenParser:
             )
 
     def report_superfluous_arguments_if_not_at_eol(self):
-        remaining = self.token_stream.remaining_part_of_current_line.strip()
+        remaining = self.token_stream.remaining_part_of_current_line.strip(' \t\r\n')
         if len(remaining) != 0:
             self.consume_remaining_part_of_current_line_as_string()
             raise misc_utils.raise_superfluous_arguments(remaining)
